@@ -204,7 +204,10 @@ def gen_obj(rng, depth=3, hashable=False):
             return gen_obj(rng, rng.randint(0, depth - 1), h)
     kind = rng.choice(('list', 'list', 'tuple', 'tuple', 'set', 'frozenset', 'dict', 'dict', 'deque', 'OrderedDict',
                        'defaultdict', 'Counter', 'ChainMap', 'keys', 'values', 'items', 'UserSeq', 'UserMap',
-                       'UserSet', 'BareIter', 'BareIterLen', 'MappingProxy', 'ListSub', 'long-list', 'Duck', 'Duck'))
+                       'UserSet', 'BareIter', 'BareIterLen', 'MappingProxy', 'ListSub', 'long-list', 'Duck', 'Duck',
+                       # user generics over builtin containers that share one TypeVar (class Bag(list[T]), class Table(dict[T, U])),
+                       # nested in each other with different bindings
+                       'Bag', 'Table', 'Table'))
     if hashable:
         kind = rng.choice(('tuple', 'frozenset'))
     try:
@@ -214,6 +217,12 @@ def gen_obj(rng, depth=3, hashable=False):
             return [item() for _ in range(rng.choice((30, 100)))]
         if kind == 'ListSub':
             return hints.env()['ListSub']([item() for _ in range(n)])
+        if kind == 'Bag':
+            return hints.env()['Bag']([item() for _ in range(n)])
+        if kind == 'Table':
+            bag = hints.env()['Bag']
+            return hints.env()['Table']({item(True): (bag([item() for _ in range(rng.choice((1, 2)))]) if rng.random() < .6 else item())
+                                         for _ in range(max(1, n))})
         if kind == 'tuple':
             return tuple(item(hashable) for _ in range(n))
         if kind == 'set':
@@ -281,7 +290,15 @@ def hint_head(h):
         a = typing.get_args(h)
         return 'Annotated[' + hint_head(a[0]) + ']'
     if o is not None:
-        return getattr(o, '__name__', str(o))
+        name = getattr(o, '__name__', str(o))
+        # a user generic subscripted by another user generic left bare (Table[tuple, Bag]) is a mechanism of its own
+        def bare(a, d=0):
+            if isinstance(a, type):
+                return a.__name__ in ('Bag', 'Table')
+            return d < 6 and any(bare(b, d + 1) for b in typing.get_args(a))
+        if name in ('Table', 'Bag') and any(bare(a) for a in typing.get_args(h)):
+            name += '[bare-user-generic]'
+        return name
     if isinstance(h, type):
         return h.__name__ if h.__module__ in ('collections.abc', 'typing', 'builtins', 'collections') else 'class'
     return type(h).__name__
